@@ -204,11 +204,18 @@ def run(sched):
         events.append(e)
         return e
 
-    def q_of(r, token, ctxname=""):
-        for q, d in reqs.items():
-            if d["msg"].token is not None and bytes(d["msg"].token) == bytes(token) and d["r"] == r and d.get("ctx", "") == ctxname:
-                return q
-        return 0
+    def q_of(r, token, ctxname="", fresh=False):
+        """The request with that token towards that peer.  Should several carry the token (an allocator that hands
+        a token out twice), a datagram being transmitted (`fresh`) belongs to the latest one not yet on the wire."""
+        cands = [q for q, d in reqs.items()
+                 if d["msg"].token is not None and bytes(d["msg"].token) == bytes(token) and d["r"] == r and d.get("ctx", "") == ctxname]
+        if not cands:
+            return 0
+        if fresh:
+            new = [q for q in cands if not copies.get(q)]
+            if new:
+                return new[-1]
+        return cands[0]
 
     def free_mid(k):
         return (sched.get("mid0", 0) + 0x8000 + k) & 0xFFFF
@@ -277,7 +284,7 @@ def run(sched):
             return
         f = msg_fields(m, rec["data"])
         f.pop("ckq")
-        q = q_of(r, m["token"], "other" if rec["sock"] == "other" else "") if f["cls"] == "req" else 0
+        q = q_of(r, m["token"], "other" if rec["sock"] == "other" else "", fresh=True) if f["cls"] == "req" else 0
         dest_mc = str(rec["to"][0]).lower().startswith("ff")
         ev("tx", r=r, q=q, x="other" if rec["sock"] == "other" else "", loc="m" if dest_mc else "u", **f)
         fired = []
@@ -323,6 +330,10 @@ def run(sched):
                 rule["_n"] = rule.get("_n", 0) + 1
                 if rule["_n"] > rule.get("max", 1 << 30):
                     continue
+                if rule["_n"] <= rule.get("skip", 0):
+                    if rule.get("skip_ack") and f["ty"] == "CON":   # the skipped ones are acknowledged, never answered
+                        w.loop.call_later(rule.get("delay", 5) / 1024.0, inject_rx, {"r": r, "ty": "ACK", "code": 0, "mid": f["mid"]})
+                    break
                 rx = {"r": r, "ty": "ACK", "code": rule.get("code", 69), "mid": f["mid"], "tok": f["tok"],
                       "payload": rule.get("payload", "")}
                 if rule.get("echo_b1") and f["b1n"] >= 0:
@@ -668,7 +679,8 @@ def run(sched):
         for c in w.loop.exceptions:
             exc = c.get("exception")
             ev("loopexc", x=type(exc).__name__ if exc is not None else "message", cls=str(c.get("message", ""))[:60])
-        ev("end")
+        # x = "cut": the run was stopped at its horizon with timers still pending (no quiescence)
+        ev("end", x="cut" if w.loop.next_timer() is not None else "")
         frozen.append(True)
         meta = {
             "loop_exceptions": [repr(c.get("exception") or c.get("message")) for c in w.loop.exceptions],
